@@ -4119,6 +4119,17 @@ func checkGatewayWildcardsAndUpdate(tx WriteTxn, idx uint64, svc *structs.Servic
 				continue
 			}
 
+			// If the gateway's config entry also lists this service on its own, that
+			// listing is the source of truth (see updateGatewayServices): do not replace
+			// its mapping (and its TLS settings) with a copy of the wildcard's.
+			existing, err := tx.First(tableGatewayServices, indexID, wildcardSvc.Gateway, structs.NewServiceName(svc.Name, &svc.EnterpriseMeta), wildcardSvc.Port)
+			if err != nil {
+				return fmt.Errorf("gateway service lookup failed: %s", err)
+			}
+			if gs, ok := existing.(*structs.GatewayService); ok && gs != nil && !gs.FromWildcard {
+				continue
+			}
+
 			// Copy the wildcard mapping and modify it
 			gatewaySvc := wildcardSvc.Clone()
 
